@@ -68,17 +68,23 @@ func VerifC02Send() {
 			fb.mailbox.Main.Push(gen.TakeMailboxMessage())
 		}
 	}
-	switch lib.VerifPick("state", 3) {
+	switch lib.VerifPick("state", 5) {
 	case 1:
 		t.state = int32(gen.ProcessStateRunning)
 	case 2:
 		t.state = int32(gen.ProcessStateTerminated)
+	case 3:
+		t.state = int32(gen.ProcessStateWaitResponse)
+	case 4:
+		// killed while busy: dead, but still in the process table until its goroutine returns
+		t.state = int32(gen.ProcessStateZombee)
 	}
+	dead := t.state == int32(gen.ProcessStateTerminated) || t.state == int32(gen.ProcessStateZombee)
 	unknown := lib.VerifPick("unknown", 2) == 1
 
 	before, fbBefore := c02Lens(t), c02Lens(fb)
 	opts := gen.MessageOptions{Priority: prio}
-	how := lib.VerifPick("how", 3)
+	how := lib.VerifPick("how", 4)
 	switch how {
 	case 0:
 		to := t.pid
@@ -98,6 +104,17 @@ func VerifC02Send() {
 			a.ID[0] += 77
 		}
 		err = n.RouteSendAlias(sender.pid, a, opts, "hello")
+	case 3:
+		// the hand-over used by act.Pool: real process.Forward (no fallback on this path)
+		to := t.pid
+		if unknown {
+			to.ID = 9999
+		}
+		qm := gen.TakeMailboxMessage()
+		qm.From = sender.pid
+		qm.Type = gen.MailboxMessageTypeRegular
+		qm.Message = "hello"
+		err = sender.Forward(to, qm, prio)
 	}
 	after, fbAfter := c02Lens(t), c02Lens(fb)
 	grewT, grewFB := int64(0), int64(0)
@@ -111,7 +128,7 @@ func VerifC02Send() {
 		switch {
 		case unknown:
 			lib.VerifAssert(err == gen.ErrProcessUnknown, "unknown addressee is reported as such")
-		case t.state == int32(gen.ProcessStateTerminated):
+		case dead:
 			lib.VerifAssert(err == gen.ErrProcessTerminated, "terminated addressee is reported as such")
 		default:
 			lib.VerifAssert(err == gen.ErrProcessMailboxFull || err == gen.ErrProcessUnknown, "otherwise only a full mailbox (or a missing fallback) refuses a message")
@@ -119,7 +136,7 @@ func VerifC02Send() {
 		}
 		return
 	}
-	lib.VerifAssert(!unknown && t.state != int32(gen.ProcessStateTerminated), "success is reported only for a live, known addressee")
+	lib.VerifAssert(!unknown && !dead, "success is reported only for a live, known addressee")
 	lib.VerifAssert(grewT+grewFB == 1, "a send that reports success is queued exactly once")
 	if grewT == 1 {
 		lib.VerifAssert(after[qidx]-before[qidx] == 1, "the message goes to the queue its priority selects: Max->urgent, High->system, anything else->main")
@@ -131,7 +148,7 @@ func VerifC02Send() {
 		lib.VerifAssert(last != nil && last.Message == "hello" && last.From == sender.pid && last.Type == gen.MailboxMessageTypeRegular, "the queued message carries the payload and the true sender")
 		lib.VerifReach("delivered to the target")
 	} else {
-		lib.VerifAssert(limit > 0 && fill == int(limit) && t.fallback.Enable && t.fallback.Name == "fb", "the fallback is used only when the bounded mailbox is full and a fallback is configured")
+		lib.VerifAssert(how != 3 && limit > 0 && fill == int(limit) && t.fallback.Enable && t.fallback.Name == "fb", "the fallback is used only by a send, when the bounded mailbox is full and a fallback is configured")
 		fq := []lib.QueueMPSC{fb.mailbox.Urgent, fb.mailbox.System, fb.mailbox.Main}
 		lib.VerifAssert(fbAfter[qidx]-fbBefore[qidx] == 1, "the fallback copy keeps the priority class")
 		var last *gen.MailboxMessage
